@@ -232,4 +232,35 @@ theorem keys_erase {α : Type} (l : List (String × α)) (k : String) : keys (er
   | cons a t ih =>
     by_cases ha : a.1 = k <;> simp [List.filter_cons, ha, ih]
 
+/-! ## the heap -/
+
+theorem find_map_mod (l : List Fr) (u v : Nat) (f : Fr → Fr) (hf : ∀ o, (f o).uid = o.uid) :
+    (l.map (fun o => if o.uid == u then f o else o)).find? (fun o => o.uid == v)
+      = if v = u then (l.find? (fun o => o.uid == v)).map f else l.find? (fun o => o.uid == v) := by
+  induction l with
+  | nil => simp
+  | cons a t ih =>
+    rw [List.map_cons]
+    have huid : (if (a.uid == u) = true then f a else a).uid = a.uid := by split <;> simp [hf]
+    by_cases hav : a.uid = v
+    · rw [List.find?_cons_of_pos (by rw [huid]; simp [hav]), List.find?_cons_of_pos (by simp [hav])]
+      by_cases hvu : v = u
+      · simp [hvu, hav.trans hvu]
+      · have : ¬ a.uid = u := fun e => hvu (hav.symm.trans e)
+        simp [hvu, this]
+    · rw [List.find?_cons_of_neg (by rw [huid]; simp [hav]), List.find?_cons_of_neg (by simp [hav])]
+      exact ih
+
+theorem get?_mod (s : St) (u v : Nat) (f : Fr → Fr) (hf : ∀ o, (f o).uid = o.uid) :
+    (s.mod u f).get? v = if v = u then (s.get? v).map f else s.get? v :=
+  find_map_mod s.objs u v f hf
+
+theorem get?_mod_self (s : St) (u : Nat) (f : Fr → Fr) (hf : ∀ o, (f o).uid = o.uid) :
+    (s.mod u f).get? u = (s.get? u).map f := by
+  rw [get?_mod s u u f hf]; simp
+
+theorem get?_mod_other (s : St) (u v : Nat) (f : Fr → Fr) (hf : ∀ o, (f o).uid = o.uid) (h : v ≠ u) :
+    (s.mod u f).get? v = s.get? v := by
+  rw [get?_mod s u v f hf]; simp [h]
+
 end Ioflo.Clones
